@@ -316,7 +316,7 @@ class PatternExec(JSExec):
 
     def verify_case(self, case, fn):
         reset_fresh()
-        self.known_ranges = {}; self.u32view = {}; self.dmcache = {}
+        self.known_ranges = {}; self.u32view = {}; self.dmcache = {}; self.tzinfo = {}; self._keep = []
         self.mode = case.mode
         fr = Frame('pattern ' + case.name, fn, None)
         fr.loops = {}
@@ -513,7 +513,7 @@ def run_c08(rep, spec, verbose=False, only=None):
 
 def _verify_spec_case(self, case, fn):
     reset_fresh()
-    self.known_ranges = {}; self.u32view = {}; self.dmcache = {}
+    self.known_ranges = {}; self.u32view = {}; self.dmcache = {}; self.tzinfo = {}; self._keep = []
     self.mode = case.mode
     fr = Frame('pattern ' + case.name, fn, None)
     fr.loops = {}; fr.loop_specs = {}
